@@ -1,7 +1,7 @@
 (* C13 - what the boolean checkers that run on the implementation's output mean. *)
 From Coq Require Import QArith ZArith List Bool Lia Permutation.
 From LV Require Import Common.Cases Wordlist.SerializeStr Wordlist.SerializeStrProofs Wordlist.SerializeNum
-  Wordlist.SerializeNumProofs Wordlist.Serialize Wordlist.SerializeProofs Wordlist.SerializeExec.
+  Wordlist.SerializeNumProofs Wordlist.Serialize Wordlist.SerializeProofs Wordlist.SerializeMsa Wordlist.SerializeExec.
 Import ListNotations.
 Local Open Scope Z_scope.
 
@@ -132,4 +132,38 @@ Proof.
   intros tbl pretty pre stamp w H CP FS.
   destruct (file_roundtrip tbl pretty pre stamp w H CP FS) as [ls [W R]].
   exists ls. split; [exact W|]. rewrite R. apply (same_objectb_model tbl), H.
+Qed.
+
+(* ------------------------------------------------------------------ *)
+(* the <msa> checker: two states the checker calls equal are equal *)
+Lemma opt_eqb_eq : forall {A} (eqb : A -> A -> bool), (forall x y, eqb x y = true <-> x = y) ->
+  forall a b, opt_eqb eqb a b = true -> a = b.
+Proof.
+  intros A eqb H a b E. destruct a, b; cbn [opt_eqb] in E; try discriminate E; [|reflexivity].
+  apply H in E. subst. reflexivity.
+Qed.
+
+Lemma swap_eqb_eq : forall a b : nat * nat * nat,
+  Nat.eqb (fst (fst a)) (fst (fst b)) && Nat.eqb (snd (fst a)) (snd (fst b)) && Nat.eqb (snd a) (snd b) = true <-> a = b.
+Proof.
+  intros [[a1 a2] a3] [[b1 b2] b3]. cbn [fst snd]. rewrite !andb_true_iff, !Nat.eqb_eq.
+  split; [intros [[-> ->] ->]; reflexivity|intros E; inversion E; auto].
+Qed.
+
+Theorem msa_read_eqb_eq : forall a b, msa_read_eqb a b = true -> a = b.
+Proof.
+  intros [i1 t1 a1 s1 l1 w1 c1] [i2 t2 a2 s2 l2 w2 c2] H. unfold msa_read_eqb, msa_core_eqb in H.
+  cbn [r_ids r_taxa r_alm r_seqs r_local r_swaps r_cons] in H.
+  repeat (apply andb_true_iff in H; let H' := fresh "K" in destruct H as [H H']).
+  apply str_eqb_eq in H. apply strs_eqb_eq in K4.
+  apply (list_eqb_spec strs_eqb strs_eqb_eq) in K3. apply (list_eqb_spec strs_eqb strs_eqb_eq) in K2.
+  apply (list_eqb_spec Nat.eqb Nat.eqb_eq) in K1. apply (list_eqb_spec _ swap_eqb_eq) in K0.
+  apply (opt_eqb_eq strs_eqb strs_eqb_eq) in K. subst. reflexivity.
+Qed.
+
+Theorem msa_state_eqb_eq : forall a b, state_eqb msa_read_eqb a b = true -> a = b.
+Proof.
+  induction a as [|[k m] a IH]; destruct b as [|[k' m'] b]; unfold state_eqb; cbn [list_eqb]; intros H; try discriminate H; [reflexivity|].
+  apply andb_true_iff in H. destruct H as [H1 H2]. cbn [fst snd] in H1. apply andb_true_iff in H1. destruct H1 as [E1 E2].
+  apply Z.eqb_eq in E1. apply msa_read_eqb_eq in E2. subst. f_equal. apply IH. exact H2.
 Qed.
